@@ -14,7 +14,7 @@ COMP = "adt"
 # ---------------------------------------------------------------------------------------------- AdtSeq configs
 OPS = {
     "atomic": ["get", "load", "set", "store", "swap", "cas", "safeset", "reset"],
-    "sync": ["get", "load", "with", "string", "using", "set", "store", "swap", "cas", "safeset", "reset"],
+    "sync": ["get", "load", "with", "string", "using", "set", "store", "swap", "cas", "safeset", "reset", "accget", "accset"],
     "once": ["do", "resolve", "set", "called", "defined", "mnemo"],
     "map": ["store", "setpair", "delete", "load", "check", "ensurestore", "ensureset", "swap", "ensuredefault", "get", "ensure",
             "len", "range", "keys", "values", "iterator", "marshal", "rangestop", "unmarshal", "config", "gc"],
@@ -25,7 +25,7 @@ OPS = {
 # repeats after every step anyway are left to the edge and random configs
 OPS_ALL = dict(OPS)
 OPS_ALL["atomic"] = ["get", "set", "swap", "cas", "safeset", "reset"]
-OPS_ALL["sync"] = ["get", "with", "set", "swap", "cas", "safeset", "reset"]
+OPS_ALL["sync"] = ["get", "with", "set", "swap", "cas", "safeset", "reset", "accget", "accset"]
 OPS_ALL["map"] = ["store", "delete", "load", "ensurestore", "swap", "ensuredefault", "get", "ensure", "range", "config", "gc"]
 OPS_ALL["once"] = ["do", "resolve", "set", "called", "mnemo"]
 
